@@ -44,6 +44,7 @@ def code_of(kind, ident, d):
         lines = ["p('%s', %d, x, time)" % (kind, ident)]
     if d['incx']:
         lines.append('x = x + %d' % d['incx'])
+        lines.append('box[0].append(x)')
     for s in d['sends']:
         args = [repr(ev_name(s['ev']))]
         if s['dl']:
@@ -76,7 +77,7 @@ def guard_of(tid, t, names):
 def cond_code(ck, owner, idx):
     if ck == 1:
         return 'c(1, %d, %d, time)' % (owner, idx)
-    return 'c(%d, %d, %d, time, __old__)' % (ck, owner, idx)
+    return 'c(%d, %d, %d, time, __old__, len(box[0]))' % (ck, owner, idx)
 
 
 def contract_lists(owner, npre, npost, ninv):
@@ -126,7 +127,7 @@ def make_transition(c, tid, names):
 
 
 def build_api(c, names, rng=None, order='random'):
-    sc = Statechart('chart', description='generated', preamble='x = 0')
+    sc = Statechart('chart', description='generated', preamble='x = 0\nbox = [[]]')
     n = c['n']
     # parents before children; among the states that can be added, pick in the chosen order
     pending = list(range(1, n + 1))
@@ -156,7 +157,7 @@ def build_api(c, names, rng=None, order='random'):
 def build_api_edit(c, names, rng):
     """Build through the editing API: composite sub-trees are first created under the root and then
     moved to their place with move_state; some states are created under a temporary name and renamed."""
-    sc = Statechart('chart', description='generated', preamble='x = 0')
+    sc = Statechart('chart', description='generated', preamble='x = 0\nbox = [[]]')
     n = c['n']
     r = gc.root(c)
     order = sorted(range(1, n + 1), key=lambda s: (gc.depth(c, s), rng.random()))
@@ -202,7 +203,7 @@ def _ystr(s):
 
 
 def yaml_text(c, names, reverse=False):
-    lines = ['statechart:', '  name: chart', '  description: generated', '  preamble: x = 0', '  root state:']
+    lines = ['statechart:', '  name: chart', '  description: generated', '  preamble: "x = 0\\nbox = [[]]"', '  root state:']
 
     def contract(ind, pre, post, inv):
         out = []
@@ -303,11 +304,30 @@ def rename_some(sc, names, seed):
     rng = random.Random(seed)
     names = dict(names)
     ids = sorted(names)
-    chosen = [i for i in ids if rng.random() < 0.6] or ids[:1]
-    rng.shuffle(chosen)
-    for i in chosen:
-        new = names[i] + rng.choice(['x', '_r', ' z', '\u00e9'])
-        sc.rename_state(names[i], new)
-        names[i] = new
+    # the statechart has been used before it is renamed (every public structural query once)
+    for n in list(sc.states):
+        sc.depth_for(n), sc.ancestors_for(n), sc.descendants_for(n), sc.children_for(n), sc.parent_for(n)
+    sc.leaf_for(sc.states), sc.events_for(), sc.validate()
+    if rng.random() < 0.5:
+        # shift: every state takes the former name of its predecessor (the first one gets a smaller name)
+        first = '!' + names[ids[0]]
+        prev = names[ids[0]]
+        sc.rename_state(prev, first)
+        names[ids[0]] = first
+        for i in ids[1:]:
+            if rng.random() < 0.8:
+                cur = names[i]
+                sc.rename_state(cur, prev)
+                names[i] = prev
+                prev = cur
+            else:
+                break
+    else:
+        chosen = [i for i in ids if rng.random() < 0.6] or ids[:1]
+        rng.shuffle(chosen)
+        for i in chosen:
+            new = names[i] + rng.choice(['x', '_r', ' z', '\u00e9'])
+            sc.rename_state(names[i], new)
+            names[i] = new
     assert sorted(names.values()) == [names[i] for i in ids], names
     return sc, names
